@@ -217,7 +217,7 @@ UnpackB(T, cx, j) ==
                        IF IsOk(c) THEN Ok(Dct([k \in DOMAIN order |-> <<S(fs[order[k]][1]), c[2][k]>>])) ELSE c
     [] T[1] = "opt" -> IF IsNone(j) THEN Ok(None) ELSE Unpack(T[2], cx, j)
     [] T[1] = "union" -> UnpackUnion(T[2], cx, j)
-    [] T[1] = "newtype" -> Unpack(T[3], cx, j)
+    [] T[1] \in {"newtype", "alias695"} -> Unpack(T[3], cx, j)
     [] T[1] = "stype" -> LET r == Unpack(T[3], cx, j) IN IF IsOk(r) THEN Ok(<<"sobj", T[2], r[2]>>) ELSE r
     [] T[1] \in {"final", "annotated"} -> Unpack(T[2], cx, j)
     [] T[1] \in {"fwd", "tvarc", "tvarb"} -> Unpack(T[3], cx, j)
@@ -256,7 +256,7 @@ Conforms(T, v) ==
                             IF PairsHas(v[2], S(T[3][i][1])) THEN Conforms(T[3][i][2], PairsGet(v[2], S(T[3][i][1]))) ELSE ~T[3][i][3]
     [] T[1] = "opt" -> IsNone(v) \/ Conforms(T[2], v)
     [] T[1] = "union" -> \E i \in DOMAIN T[2] : Conforms(T[2][i], v)
-    [] T[1] = "newtype" -> Conforms(T[3], v)
+    [] T[1] \in {"newtype", "alias695"} -> Conforms(T[3], v)
     [] T[1] = "stype" -> v[1] = "sobj" /\ v[2] = T[2] /\ Conforms(T[3], v[3])
     [] T[1] \in {"final", "annotated"} -> Conforms(T[2], v)
     [] T[1] \in {"fwd", "tvarc", "tvarb"} -> Conforms(T[3], v)
